@@ -365,14 +365,48 @@ func (t *transpiler) evaluateFor(forStatement parser.For) error {
 	return conv.ForEnd()
 }
 
-func (t *transpiler) evaluateVarDefinition(definition parser.VariableDefinition) error {
-	for i, variable := range definition.Variables() {
-		result, err := t.evaluateExpression(definition.Values()[i], true)
+// evaluateAssignedValues evaluates the right-hand sides of a definition or assignment. If several
+// variables are written, every value is stored in a temporary first, because all values must be
+// evaluated before the first variable changes (a, b = b, a).
+func (t *transpiler) evaluateAssignedValues(expressions []parser.Expression, count int) ([]string, error) {
+	values := []string{}
+
+	for i := 0; i < count; i++ {
+		result, err := t.evaluateExpression(expressions[i], true)
 
 		if err != nil {
-			return err
+			return nil, err
 		}
-		err = t.converter.VarDefinition(variable.Name(), result.firstValue(), variable.Global())
+		value := result.firstValue()
+
+		if count > 1 {
+			temp := fmt.Sprintf("_ma%d", i)
+			err = t.converter.VarDefinition(temp, value, false)
+
+			if err != nil {
+				return nil, err
+			}
+			value, err = t.converter.VarEvaluation(temp, true, false)
+
+			if err != nil {
+				return nil, err
+			}
+		}
+		values = append(values, value)
+	}
+	return values, nil
+}
+
+func (t *transpiler) evaluateVarDefinition(definition parser.VariableDefinition) error {
+	variables := definition.Variables()
+	values, err := t.evaluateAssignedValues(definition.Values(), len(variables))
+
+	if err != nil {
+		return err
+	}
+
+	for i, variable := range variables {
+		err = t.converter.VarDefinition(variable.Name(), values[i], variable.Global())
 
 		if err != nil {
 			return err
@@ -407,13 +441,15 @@ func (t *transpiler) evaluateVarDefinitionCallAssignment(definition parser.Varia
 }
 
 func (t *transpiler) evaluateVarAssignment(assignment parser.VariableAssignment) error {
-	for i, variable := range assignment.Variables() {
-		result, err := t.evaluateExpression(assignment.Values()[i], true)
+	variables := assignment.Variables()
+	values, err := t.evaluateAssignedValues(assignment.Values(), len(variables))
 
-		if err != nil {
-			return err
-		}
-		err = t.converter.VarDefinition(variable.Name(), result.firstValue(), variable.Global())
+	if err != nil {
+		return err
+	}
+
+	for i, variable := range variables {
+		err = t.converter.VarDefinition(variable.Name(), values[i], variable.Global())
 
 		if err != nil {
 			return err
